@@ -301,6 +301,10 @@ type CCFeedbackMetricBlock struct {
 
 // Marshal encodes the Congestion Control Feedback Metric Block in binary
 func (b CCFeedbackMetricBlock) marshal() ([]byte, error) {
+	// 2-bit ECN, 13-bit arrival time offset
+	if b.ECN > ECNCE || b.ArrivalTimeOffset > 0x1FFF {
+		return nil, errFieldOutOfRange
+	}
 	buf := make([]byte, 2)
 	r := uint16(0)
 	if b.Received {
